@@ -93,7 +93,7 @@ def run(ctx):
     if ctx.model.available:
         import streams
         nested = [build(kind, d) for kind in KINDS for d in ([1, 2, 3, 5, 8, 13, 30] if ctx.quick() else list(range(1, 16)) + [20, 30, 45, 60])]
-        streams.s_tree(ctx, nested)
+        streams.s_tree(ctx, nested, fuel=1500)   # every construct adds up to five tree levels per nesting step
     cases = []
     limits = [200, 500, 1000] if ctx.quick() else [200, 500, 1000, 3000]
     for limit in limits:
